@@ -125,7 +125,9 @@ function buildHtmlText(rng, which, form, hk, neighbour, spellingIdx) {
     case 'secondDir': attrs = [d, makeDirective(b, ['v-second', 'second'], [], null, 'expr', 1)]; break;
     default: attrs = [A.attr('class', { k: 'str', raw: 'k' }), d];
   }
-  const el = { tag, attrs, children: [], selfClose: true };
+  const children = [];
+  if (neighbour === 'withChildren') { const x = b.global({ k: 'sent' }); children.push(C.el({ tag: { kind: 'html', name: 'span', src: 'span' }, attrs: [], children: [C.text('fallback')] }), C.expr(b.leaf(x), x)); }
+  const el = { tag, attrs, children, selfClose: children.length === 0 };
   b.addThunk('t0', renderElement(el));
   return { src: b.source(), spec: { thunks: [{ name: 't0', el }], env: b.env } };
 }
@@ -159,7 +161,7 @@ export function* generate({ tier, seed }) {
     for (const c of rng.shuffle(all).slice(0, 12000)) { const g = emit(c, [rng.pick(OPTS)]); if (g) yield g; }
   }
   // v-html / v-text
-  for (const which of ['html', 'text']) for (const form of HT_FORMS) for (const hk of HOSTKINDS) for (const nb of ['none', 'attrBefore', 'attrAfter', 'spreadBefore', 'secondDir', 'class']) for (const si of [0, 1]) {
+  for (const which of ['html', 'text']) for (const form of HT_FORMS) for (const hk of HOSTKINDS) for (const nb of ['none', 'attrBefore', 'attrAfter', 'spreadBefore', 'secondDir', 'class', 'withChildren']) for (const si of [0, 1]) {
     const built = buildHtmlText(rng, which, form, hk, nb, si);
     yield {
       gid: `C04-ht-${n++}`, src: built.src, syntax: 'jsx', spec: built.spec,
